@@ -127,6 +127,13 @@ Error ConstPool::add(const void* data, size_t size, Out<size_t> offset_out) noex
     return Error::kOk;
   }
 
+  // Allocate the node before the pool is modified - if this fails nothing has happened (no gap consumed, no space
+  // reserved), so the call can simply be repeated. The offset is assigned once it's known.
+  node = ConstPool::Tree::new_node_t(_arena, data, size, 0, false);
+  if (ASMJIT_UNLIKELY(!node)) {
+    return make_error(Error::kOutOfMemory);
+  }
+
   // Before incrementing the current offset try if there is a gap that can be used for the requested data.
   size_t offset = ~size_t(0);
   size_t gap_index = tree_index;
@@ -169,13 +176,10 @@ Error ConstPool::add(const void* data, size_t size, Out<size_t> offset_out) noex
   }
 
   // Add the initial node to the right index.
-  node = ConstPool::Tree::new_node_t(_arena, data, size, offset, false);
-  if (ASMJIT_UNLIKELY(!node)) {
-    return make_error(Error::kOutOfMemory);
-  }
-
+  node->_offset = uint32_t(offset);
   _tree[tree_index].insert(node);
   _alignment = Support::max<size_t>(_alignment, size);
+  _min_item_size = !_min_item_size ? size : Support::min(_min_item_size, size);
 
   offset_out = offset;
 
@@ -200,13 +204,14 @@ Error ConstPool::add(const void* data, size_t size, Out<size_t> offset_out) noex
 
       node = ConstPool::Tree::new_node_t(_arena, data_ptr, smaller_size, offset + (i * smaller_size), true);
       if (ASMJIT_UNLIKELY(!node)) {
-        return make_error(Error::kOutOfMemory);
+        // Shared nodes are only an optimization (they let a later, smaller constant reuse these bytes) - the constant
+        // itself has been added, so this is not an error (like a gap that could not be recorded).
+        return Error::kOk;
       }
       _tree[tree_index].insert(node);
     }
   }
 
-  _min_item_size = !_min_item_size ? size : Support::min(_min_item_size, size);
   return Error::kOk;
 }
 
